@@ -37,7 +37,8 @@ type riCase struct {
 // anyCase is what a replay / corpus file of this property may hold.
 type anyCase struct {
 	jbCase
-	Ins []riIn `json:"ins"`
+	Ins  []riIn `json:"ins"`
+	Lops []opJ  `json:"lops"` // long.go: compressed history (jitter buffer, or priority queue when the kinds start with q)
 }
 
 var errUpstream = errors.New("upstream reader failed")
